@@ -19,7 +19,7 @@ type Behaviour struct {
 	Kind    string // honest liarHeaders lighterFork liarCFHeaders liarCFCheckpt liarCFilter silent noServices disconnectAt garbage
 	H       int    // height of the lie / checkpoint index / message count before the disconnect / fork depth
 	N       int    // lighterFork: branch length
-	Variant string // liarHeaders: pow|unlinked ; noServices: cf|witness ; liarCFHeaders: inconsistent|consistent
+	Variant string // liarHeaders: pow|unlinked ; noServices: cf|witness ; liarCFHeaders: inconsistent|consistent ; liarCFCheckpt: only|consistent
 	Tx      string // reaction to a transaction inv: "" (ignore) | accept | reject-nogetdata | reject
 }
 
@@ -32,7 +32,9 @@ func (b Behaviour) String() string {
 		s += fmt.Sprintf(" %d %d", b.H, b.N)
 	case "liarCFHeaders":
 		s += fmt.Sprintf(" %d %s", b.H, b.Variant)
-	case "liarCFCheckpt", "liarCFilter", "disconnectAt":
+	case "liarCFCheckpt":
+		s += fmt.Sprintf(" %d %s", b.H, b.Variant)
+	case "liarCFilter", "disconnectAt":
 		s += fmt.Sprintf(" %d", b.H)
 	case "noServices":
 		s += " " + b.Variant
@@ -71,6 +73,8 @@ type Peer struct {
 	Handshakes                                                                            int32
 	sentTotal                                                                             int32
 	didDisconnect                                                                         int32
+	Lied                                                                                  int32 // served at least one false message
+	barrier                                                                               <-chan struct{} // when set: the first headers reply waits for it
 }
 
 type session struct {
@@ -249,7 +253,7 @@ func (s *session) writer(pver uint32, net wire.BitcoinNet) {
 
 // Announce tells the client about this peer's current tip (if connected).
 func (p *Peer) Announce() {
-	if !p.B.followsHonest() || p.B.Kind == "silent" {
+	if p.B.Kind == "silent" {
 		return
 	}
 	p.mu.Lock()
@@ -346,6 +350,14 @@ func (s *session) handle(m wire.Message) {
 
 	case *wire.MsgGetHeaders:
 		atomic.AddInt32(&p.GotGetHeaders, 1)
+		if p.barrier != nil {
+			select {
+			case <-p.barrier:
+			case <-s.done:
+				return
+			case <-time.After(5 * time.Second):
+			}
+		}
 		tip := p.tip()
 		start := int32(1)
 		for _, h := range msg.BlockLocatorHashes {
@@ -359,6 +371,9 @@ func (s *session) handle(m wire.Message) {
 		for h := start; h <= tip.Height && len(out.Headers) < wire.MaxBlockHeadersPerMsg; h++ {
 			hdr := path[h].Msg.Header
 			out.AddBlockHeader(&hdr)
+			if !path[h].Valid {
+				atomic.StoreInt32(&p.Lied, 1)
+			}
 			if path[h].Hash == msg.HashStop {
 				break
 			}
@@ -375,9 +390,12 @@ func (s *session) handle(m wire.Message) {
 		out := wire.NewMsgCFCheckpt(msg.FilterType, &msg.StopHash, int(stop.Height/wire.CFCheckptInterval))
 		path := stop.Path()
 		for i := int32(1); i*wire.CFCheckptInterval <= stop.Height; i++ {
-			fh := path[i*wire.CFCheckptInterval].FHeader
-			if p.B.Kind == "liarCFCheckpt" && int(i-1) == p.B.H {
+			fh := p.fheader(path, i*wire.CFCheckptInterval)
+			if p.B.Kind == "liarCFCheckpt" && p.B.Variant == "only" && int(i-1) == p.B.H {
 				fh = p.fake(-i)
+			}
+			if fh != path[i*wire.CFCheckptInterval].FHeader {
+				atomic.StoreInt32(&p.Lied, 1)
 			}
 			out.AddCFHeader(&fh)
 		}
@@ -387,18 +405,23 @@ func (s *session) handle(m wire.Message) {
 		atomic.AddInt32(&p.GotGetCFHeaders, 1)
 		tip := p.tip()
 		stop := p.onMyChain(msg.StopHash, tip)
-		if stop == nil || !stop.Valid || int32(msg.StartHeight) > stop.Height || msg.StartHeight == 0 {
+		// like btcd: no answer when the range is empty or exceeds one message
+		if stop == nil || !stop.Valid || int32(msg.StartHeight) > stop.Height ||
+			stop.Height-int32(msg.StartHeight)+1 > wire.MaxCFHeadersPerMsg {
 			return
 		}
 		path := stop.Path()
 		out := wire.NewMsgCFHeaders()
 		out.FilterType = msg.FilterType
 		out.StopHash = msg.StopHash
-		out.PrevFilterHeader = path[msg.StartHeight-1].FHeader
+		if msg.StartHeight > 0 {
+			out.PrevFilterHeader = p.fheader(path, int32(msg.StartHeight)-1)
+		}
 		for h := int32(msg.StartHeight); h <= stop.Height && len(out.FilterHashes) < wire.MaxCFHeadersPerMsg; h++ {
 			fh := path[h].FHash
-			if p.B.Kind == "liarCFHeaders" && int(h) == p.B.H {
+			if (p.B.Kind == "liarCFHeaders" && int(h) == p.B.H) || h == p.cpLieHeight() {
 				fh = p.lieFilterHash(path[h])
+				atomic.StoreInt32(&p.Lied, 1)
 			}
 			out.AddCFHash(&fh)
 		}
@@ -408,7 +431,8 @@ func (s *session) handle(m wire.Message) {
 		atomic.AddInt32(&p.GotGetCFilters, 1)
 		tip := p.tip()
 		stop := p.onMyChain(msg.StopHash, tip)
-		if stop == nil || !stop.Valid || int32(msg.StartHeight) > stop.Height {
+		if stop == nil || !stop.Valid || int32(msg.StartHeight) > stop.Height ||
+			stop.Height-int32(msg.StartHeight)+1 > wire.MaxGetCFiltersReqRange {
 			return
 		}
 		path := stop.Path()
@@ -417,6 +441,7 @@ func (s *session) handle(m wire.Message) {
 			if (p.B.Kind == "liarCFilter" && int(h) == p.B.H) ||
 				(p.B.Kind == "liarCFHeaders" && p.B.Variant == "consistent" && int(h) == p.B.H) {
 				data = p.lieFilter(path[h])
+				atomic.StoreInt32(&p.Lied, 1)
 			}
 			s.send(wire.NewMsgCFilter(msg.FilterType, &path[h].Hash, data))
 		}
@@ -472,6 +497,34 @@ func (s *session) handle(m wire.Message) {
 			s.send(rj)
 		}
 	}
+}
+
+// cpLieHeight: a "consistent" checkpoint liar also lies about the filter hash
+// of the checkpointed block itself, so that its checkpoints, filter headers and
+// filter hashes agree with each other (-1: none).
+func (p *Peer) cpLieHeight() int32 {
+	if p.B.Kind == "liarCFCheckpt" && p.B.Variant == "consistent" {
+		return int32(p.B.H+1) * wire.CFCheckptInterval
+	}
+	return -1
+}
+
+// fheader: the filter header this peer claims for height h of path (the true
+// one, except above a consistent checkpoint liar's false filter hash).
+func (p *Peer) fheader(path []*Blk, h int32) chainhash.Hash {
+	l := p.cpLieHeight()
+	if l < 0 || h < l || int(l) >= len(path) {
+		return path[h].FHeader
+	}
+	prev := path[l-1].FHeader
+	for k := l; k <= h; k++ {
+		fh := path[k].FHash
+		if k == l {
+			fh = p.lieFilterHash(path[k])
+		}
+		prev = chainhash.DoubleHashH(append(fh[:], prev[:]...))
+	}
+	return prev
 }
 
 // lieFilterHash: the false filter hash this peer commits to at block b.
